@@ -1948,12 +1948,34 @@ class Mode2Mon(mon.Monitor):
                              "without t_eval, a callback can return without recording the accepted step's end point x (and not because it duplicates the last sample)", n, self.cur_trail)
         return (st,)
 
+    def dup_tests(self, n):
+        """comparisons `|A - *x| (> | <=) T` in the condition of n (resolved through single-assignment bool locals)"""
+        out = []
+        body = self.hc.body["body"]
+
+        def through_let(e):
+            # a single-assignment bool local stands for its initialiser
+            for _ in range(3):
+                if e.get("k") == "Unary" and e.get("op") == "Not":
+                    e = e["e"]
+                    continue
+                if e.get("k") == "Path" and e.get("res") == "local" and (e.get("ty") or "") == "bool":
+                    lets = tast.find(body, lambda z: z.get("k") == "Let" and z["pat"].get("k") == "PBind" and z["pat"].get("id") == e.get("id") and z.get("init") is not None)
+                    if len(lets) == 1:
+                        e = lets[0]["init"]
+                        continue
+                break
+            return e
+        c = through_let(n["cond"])
+        for z in tast.find(c, lambda z: z.get("k") == "Binary" and z["op"] in ("Gt", "Ge", "Le", "Lt", "Ne", "Eq")):
+            l, r = z["l"], z["r"]
+            if tast.contains(l, lambda q: q.get("k") == "MethodCall" and q.get("name") == "abs") and tast.contains(l, lambda q: q.get("k") == "Path" and q.get("id") == self.hc.pid[2]):
+                out.append((z, r))
+        return out
+
     def is_dup_guard(self, n):
-        """`.. |A - *x| > tol ..`: the else edge means x is within the handler's duplicate tolerance of a recorded time"""
-        c = n["cond"]
-        return tast.contains(c, lambda z: z.get("k") == "Binary" and z["op"] == "Gt" and self.hc.field_is(z["r"], "tol")
-                             and tast.contains(z["l"], lambda q: q.get("k") == "MethodCall" and q.get("name") == "abs")
-                             and tast.contains(z["l"], lambda q: q.get("k") == "Path" and q.get("id") == self.hc.pid[2]))
+        """`.. |A - *x| > T ..` (or its negation bound to a flag): one edge means x differs from a recorded time by at most T"""
+        return bool(self.dup_tests(n))
 
 
 def r_mode2_record(rep, hc):
@@ -1967,6 +1989,36 @@ def r_mode2_record(rep, hc):
     # guarded by |xold - x| > tol cannot be the initial one, so every reported path is a step callback
     for key, msg, node, trail in m.violations:
         rep.violation("R-MODE2-RECORD", key, msg, sp(node))
+    # the duplicate test may only swallow points that differ from the last sample by rounding: a threshold that is an
+    # absolute constant (the handler's 1e-12 slack) drops real steps shorter than it - the final sample is then not xend on a
+    # tiny interval, and fewer intervals are reported than steps were accepted
+    m1e = m1.get("else")
+    dups = []
+    for i_ in tast.find(m1e, lambda z: z.get("k") in ("If", "Let")) if m1e is not None else []:
+        src = i_["cond"] if i_.get("k") == "If" else i_.get("init")
+        if src is None:
+            continue
+        for z in tast.find(src, lambda z: z.get("k") == "Binary" and z["op"] in ("Gt", "Ge", "Le", "Lt")):
+            if tast.contains(z["l"], lambda q: q.get("k") == "MethodCall" and q.get("name") == "abs") and tast.contains(z["l"], lambda q: q.get("k") == "Path" and q.get("id") == hc.pid[2]) \
+                    and (tast.contains(src, lambda q: q.get("k") == "MethodCall" and q.get("name") == "last" and tast.contains(q["recv"], lambda w: hc.field_is(w, "t")))
+                         or tast.contains(z["l"], lambda q: q.get("k") == "MethodCall" and q.get("name") == "last")):
+                dups.append(z)
+    seen_ids = set()
+    for z in dups:
+        if id(z) in seen_ids:
+            continue
+        seen_ids.add(id(z))
+        key = "R-MODE2-RECORD:%s:dup-slack" % hc.fn
+        thr = z["r"]
+        relative = tast.contains(thr, lambda q: q.get("k") == "Path" and (q.get("def") or "").endswith("::EPSILON")) and \
+            tast.contains(thr, lambda q: q.get("k") == "MethodCall" and q.get("name") == "abs")
+        zero = thr.get("k") == "Lit" and float(str(thr.get("v", "1")).replace("_", "")) == 0.0
+        if relative or zero:
+            rep.ok("R-MODE2-RECORD", key, "the duplicate test `%s` swallows only points within rounding of the last sample" % tast.render(z)[:80])
+        else:
+            rep.violation("R-MODE2-RECORD", key, "the accepted step's end point is skipped when `%s` fails: the threshold `%s` is an absolute slack, so every step shorter than it is dropped from the record "
+                          "(on an interval no longer than the slack the result is t = [x0] with Success; with tiny first steps fewer intervals are reported than steps accepted)"
+                          % (tast.render(z)[:70], tast.render(thr)[:30]), sp(z))
     if not m.violations:
         rep.ok("R-MODE2-RECORD", "R-MODE2-RECORD:%s" % hc.fn, "every solver-selected-output callback records x (or skips it only as a duplicate"
                + (", or while waiting for the enforced first output)" if m.used_wait else ")"))
